@@ -197,6 +197,8 @@ func raceC13(seed uint64, dir string) error {
 		r := q.Reader()
 		got := 0
 		buf := make([]byte, 8192)
+		var idleSince time.Time
+		reported := false
 		// no spin limit: under load the producer may be slow; a real hang is caught
 		// by the per-run watchdog in RaceMain
 		for got < total {
@@ -238,6 +240,7 @@ func raceC13(seed uint64, dir string) error {
 				}
 				got++
 				read++
+				idleSince = time.Time{}
 			}
 			r.Done()
 			if read > 0 && cr.Intn(2) == 0 {
@@ -255,6 +258,13 @@ func raceC13(seed uint64, dir string) error {
 			if read == 0 {
 				if prodDone.Load() && int64(got) >= atomic.LoadInt64(&flushed) {
 					break
+				}
+				if idleSince.IsZero() {
+					idleSince = time.Now()
+				} else if time.Since(idleSince) > 20*time.Second && !reported {
+					reported = true
+					pend, _ := q.Pending()
+					fmt.Printf("RACE-DEBUG seed %x: consumer idle for 20s: got=%d total=%d flushed=%d acked=%d prodDone=%v perr=%v pending=%d\n", seed, got, total, atomic.LoadInt64(&flushed), atomic.LoadInt64(&acked), prodDone.Load(), perr, pend)
 				}
 				time.Sleep(50 * time.Microsecond)
 			}
@@ -329,7 +339,7 @@ func RaceMain(prop string, seed uint64, seconds int) int {
 						return nil, true
 					}
 				}
-				err, hung := runOnce(120 * time.Second)
+				err, hung := runOnce(60 * time.Second)
 				if hung {
 					// A workload of a few milliseconds did not finish within two minutes.
 					// That is either a deadlock inside the code under test or a stall of
@@ -339,16 +349,16 @@ func RaceMain(prop string, seed uint64, seconds int) int {
 					n := runtime.Stack(buf, true)
 					os.WriteFile(filepath.Join(os.TempDir(), fmt.Sprintf("verif-race-stall-%x.txt", s)), buf[:n], 0o644)
 					confirmed := 0
-					for k := 0; k < 3; k++ {
-						if _, h := runOnce(90 * time.Second); h {
+					for k := 0; k < 2; k++ {
+						if _, h := runOnce(45 * time.Second); h {
 							confirmed++
 						}
 					}
-					if confirmed == 3 {
-						err = fmt.Errorf("HANG: run did not finish within 120s and hung again in 3 of 3 repetitions (readers/writers/closer or producer/consumer blocked)")
+					if confirmed == 2 {
+						err = fmt.Errorf("HANG: run did not finish within 60s and hung again in 2 of 2 repetitions (readers/writers/closer or producer/consumer blocked)")
 					} else {
 						atomic.AddInt64(&stalls, 1)
-						fmt.Printf("RACE-STALL seed %x: one run did not finish within 120s, %d of 3 repetitions hung (not confirmed, not reported)\n", s, confirmed)
+						fmt.Printf("RACE-STALL seed %x: one run did not finish within 60s, %d of 2 repetitions hung (not confirmed, not reported)\n", s, confirmed)
 					}
 				}
 				atomic.AddInt64(&runs, 1)
@@ -367,7 +377,7 @@ func RaceMain(prop string, seed uint64, seconds int) int {
 	go func() { wg.Wait(); close(wgDone) }()
 	select {
 	case <-wgDone:
-	case <-time.After(time.Duration(seconds)*time.Second + 450*time.Second):
+	case <-time.After(time.Duration(seconds)*time.Second + 200*time.Second):
 	}
 	fmt.Printf("RACE-RUNS %d\n", atomic.LoadInt64(&runs))
 	mu.Lock()
